@@ -8,7 +8,10 @@ import json, os, itertools, random, subprocess
 from .common import *
 
 
-def report(ctx, rep, trace, prefix, what):
+def report(ctx, rep, trace, prefix, what, rerun=None):
+    """rerun (optional): how to execute the failing schedule again on the current code --
+    dict(harness=[sub-command and arguments, with the placeholders {in} and {out}], schedules=<file with one schedule per run>,
+         module=<trace module>, constants={...}, invariants=[...]); stored in the replay file, used by ./check <ID> --replay."""
     recs = None
     for name, line in rep["viol"]:
         if not name.startswith(prefix):
@@ -19,8 +22,17 @@ def report(ctx, rep, trace, prefix, what):
         while lo > 1 and '"t":"reset"' not in recs[lo - 1]:
             lo -= 1
         window = [json.loads(x) for x in recs[lo - 1: line]]
-        ctx.violation("%s: %s (record %d of %s)" % (name, what, line, os.path.basename(trace)), name,
-                      {"monitor": name, "records_of_this_run_up_to_failure": window[-60:]})
+        obj = {"monitor": name, "records_of_this_run_up_to_failure": window[-60:]}
+        if rerun:
+            k = sum(1 for x in recs[:lo] if '"t":"reset"' in x) - 1      # index of the run = index of its schedule
+            try:
+                sched = open(rerun["schedules"]).read().splitlines()[k]
+            except Exception:
+                sched = None
+            if sched is not None:
+                obj["rerun"] = {"harness": rerun["harness"], "schedule": json.loads(sched), "module": rerun["module"],
+                                "constants": rerun["constants"], "invariants": rerun.get("invariants", []), "prefix": prefix}
+        ctx.violation("%s: %s (record %d of %s)" % (name, what, line, os.path.basename(trace)), name, obj)
 
 
 # ------------------------------------------------------------------------------------------------- C19
